@@ -17,6 +17,7 @@ pub mod c16;
 pub mod c16h;
 pub mod c17;
 pub mod c18;
+pub mod c18d;
 pub mod c19;
 pub mod c20;
 
